@@ -600,6 +600,10 @@ func (c *Client) toOffline() {
 	case _, ok := <-c.writeSem:
 		verifEv("to.wsRecv", vb(ok), 0)
 		if !ok {
+			// A write which failed on a closed-connection error
+			// leaves the connection as is.
+			c.readConn.Close()
+			c.readConn = nil
 			return // ErrClosed
 		}
 		c.readConn.Close()
@@ -609,6 +613,7 @@ func (c *Client) toOffline() {
 		_, ok := <-c.writeSem
 		verifEv("to.wsRecv", vb(ok), 0)
 		if !ok {
+			c.readConn = nil
 			return // ErrClosed
 		}
 	}
